@@ -137,4 +137,23 @@ func init() {
 		Assume:   []string{"page contents are compared through frames; the faulting page's bytes are loaded into a host window from the mapped frame before the fault is raised (data-path stub)", "a fault whose page cannot be backed by host memory is skipped when it would be recoverable"},
 		Required: []string{"c06.cow_on_zero_frame_recovered", "c06.cow_on_ordinary_frame_recovered", "c06.failure_while_resolving_panics", "c06.other_fault_panics", "c06.upper_level_tamper_panics", "c06.gpf_panics", "c06.guard_refused.Map", "c06.guard_refused.MapTemporary", "c06.guard_refused.MapRegion", "c06.guard_refused.IdentityMapRegion", "c06.guard_refused.pdt.Map(inactive)", "c06.readonly_zero_mapping_ok"},
 	})
+
+	// ------------------------------------------------------------------ TREE (C13)
+	addEngine(&engineSpec{
+		Name: "tree", PkgDir: "device/acpi/aml",
+		Files: []overlayFile{
+			simkitFor("device/acpi/aml", "aml"),
+			{Src: "engines/tree/harness.go.txt", Dst: "device/acpi/aml/zz_verif_tree_test.go", Pkg: "aml"},
+		},
+		Anchors: []string{"kernel/device/acpi/aml/obj_tree.go"},
+		Real:    []string{"aml.ObjectTree: newObject, newNamedObject, append, appendAfter, detach, free, ObjectAt, Find, findRelative, NumArgs, ArgAt, CreateDefaultScopes"},
+		Stub:    []string{"none (no hardware, no environment)"},
+	})
+	addProp(&propSpec{
+		ID: "C13", Engine: "tree", Level: "exploration",
+		Subs: []subCheck{{Name: "C13", QuickRuns: 60000, QuickMs: 30000, ThoroughRuns: 6000000, ThoroughMs: 400000}},
+		Rule: "one evaluation = one seeded history (up to 300 operations) of create (named from a 6-name alphabet so that shadowing is frequent, or unnamed) / append / insert-after / detach / re-attach of whole subtrees / free-leaf, interleaved with well-formed lookups (absolute, parent-prefixed, single- and multi-segment, with embedded dual/multi-name prefix bytes; half of them aimed at an existing object) and malformed lookups from every live scope; after every edit every link of the real tree is compared with the reference tree and freed-slot reuse is checked; every well-formed lookup is compared with the reference resolver. Degenerate one-party history: no schedule or fault dimension exists for this code. Non-trivial = at least 5 edits and 2 lookups; distinct = hash of (final tree shape and names, lookup count).",
+		Assume:   []string{"sibling names are unique (ACPI scopes do not allow duplicates); for malformed expressions only no-crash and live-or-not-found is required", "callers of free pass leaves (the tree panics by design otherwise)"},
+		Required: []string{"c13.freed_slot_reused", "c13.insert_in_the_middle", "c13.subtree_reattached", "c13.detach_last_child", "c13.detach_first_child", "c13.found_in_enclosing_scope", "c13.parent_prefixed_single_segment_not_found", "c13.malformed_lookup"},
+	})
 }
